@@ -136,7 +136,7 @@ class C07:
     level = "exploration"
     design_ref = "DESIGN.md 3.6"
     tiers = {"quick": {"runs": 4000, "budget_s": 80, "chunk": 10, "twice_every": 12, "shrink_s": 60},
-             "thorough": {"runs": 60000, "budget_s": 840, "chunk": 12, "twice_every": 24, "shrink_s": 180}}
+             "thorough": {"runs": 200000, "budget_s": 840, "chunk": 12, "twice_every": 24, "shrink_s": 180}}
     rule = ("one run = one experiment whose recording evaluators yield PRNG-generated rows (ragged or homogeneous key sets, nested "
             "lists/tuples/dicts, None, NaN/inf, unicode, newlines, quotes, non-string keys) and whose components carry generated params, "
             "executed without a file on simulated workers under a seeded schedule, with a plain file, with a .gz file, and interrupted "
